@@ -1,7 +1,7 @@
 #!/bin/sh
 # Usage: try_seed.sh <dir with patch.diff + meta.json> [tier]   -- apply a seeded break to /repo, run the
 # property's check, undo the change straight afterwards.  Prints CAUGHT / MISSED.
-D=$1; TIER=${2:-quick}
+D=$(realpath $1); TIER=${2:-quick}
 PROP=$(python3 -c "import json,sys;print(json.load(open('$D/meta.json'))['property'])")
 cd /repo || exit 2
 if ! git diff --quiet; then echo "/repo has uncommitted changes; refusing"; exit 2; fi
